@@ -22,6 +22,10 @@ RULE = ('dumps = scenario content on 2-3 declared threads + one undeclared threa
 QUICK_SHARDS = 8
 THOROUGH_SHARDS = 16
 ANSI = re.compile(r'\x1b\[[0-9;]*m')
+# names that fill the 32 argument bytes of a name-string record completely (no terminator) or but for one byte
+LONG_NAMES = (b'GHIJKLMNOPQRSTUVWXYZabcdefghijkl', b'a-process-name-31-bytes-long-ok!'[:31], b'thirty-two-bytes-ending-in-\xc3\xa9\xc3\xa9z',
+              b'\xe6\x97\xa5' * 10 + b'zz')
+assert [len(n) for n in LONG_NAMES] == [32, 31, 32, 32]
 KEVENT_SWITCHES = ('show_timestamp', 'show_name', 'show_func_qual', 'show_tid', 'show_process', 'show_args')
 TRACE_SWITCHES = ('show_timestamp', 'show_tid', 'show_process')
 
@@ -76,10 +80,10 @@ def gen_dump(rng):
             c = rng.random()
             if c < 0.2:      # a new-thread pair that (re-)maps a thread of this stream
                 target = rng.choice(tids + [undeclared, 555])
-                prog += H.newthread_pair(target, rng.choice((100, 200, 300, 777, 0)), rng.choice(domain.TEXTS[:5])[:16] or b'x',
+                prog += H.newthread_pair(target, rng.choice((100, 200, 300, 777, 0)), rng.choice(LONG_NAMES + tuple(t[:16] or b'x' for t in domain.TEXTS[:5])),
                                          rng.choice((H.NONE, H.ALL)))
             elif c < 0.3:
-                prog += H.exec_pair(rng.choice((100, 200, 777, 0)), rng.choice((b'execd', b'newimage')), rng.choice((H.NONE, H.ALL)))
+                prog += H.exec_pair(rng.choice((100, 200, 777, 0)), rng.choice((b'execd', b'newimage') + LONG_NAMES), rng.choice((H.NONE, H.ALL)))
             elif c < 0.4:
                 prog += [H.A('TRACE_DATA_THREAD_TERMINATE_PID', H.NONE, (rng.choice((100, 200, 888, 0)), 5, 0, 0))]
             elif c < 0.5:
